@@ -5,7 +5,7 @@ VARIABLES c
 
 NoLit == [pre |-> FALSE, post |-> FALSE, nph |-> 1, ref |-> "next", ty |-> "Display", mod |-> "none"]
 Lits == [pre : BOOLEAN, post : BOOLEAN, nph : 0..2,
-         ref : {"next", "pos0", "pos1", "pos2", "name_field", "name_other"},
+         ref : {"next", "pos0", "pos1", "pos2", "pos_wrap0", "name_field", "name_other"},
          ty : PhTypes, mod : {"none", "ws", "colon", "colon_ws", "width", "fill", "left", "center", "right", "sign", "minus", "alt", "zero", "prec"}]
 ArgForms == {"none", "pos_field", "pos_expr", "named_match", "named_nomatch", "two"}
 
